@@ -222,6 +222,36 @@ fn ob_c06_branch_neighbours_left_rooted_tree(two: bool, ks: u8, ke: u8) {
     branch_cases(two, ks, ke, 7);
 }
 
+fn branch_cases3(two: bool, ks: u8, ke: u8, kl: u8) {
+    vassume!(ks <= 7 && ke <= 7);
+    vcover!(two && ks == 5 && ke == 2);
+    branch_case(two, ks, ke, kl, 8);
+    branch_case(two, ks, ke, kl, 5);
+    branch_case(two, ks, ke, kl, 2);
+}
+
+//@ob C06.branch.neighbours.core.left-separator
+//@ props: C06 C05
+//@ kind: complete
+//@ unwind: 5
+//@ fns: src/rule.rs::branch::check_branch src/rule.rs::branch::has_starting_boundary src/rule.rs::branch::has_ending_boundary src/rule.rs::branch::has_starting_zom src/rule.rs::branch::has_ending_zom src/rule.rs::branch::CorrelatedError::new
+//@ pre: quick-tier slice of C06.branch.neighbours.left-separator: symbolic leaf terminals (all eight kinds, one or two); a separator on the left; on the right nothing, a separator or a `*`
+//@ post: as C06.branch.neighbours.left-*: rejected exactly when a boundary / zero-or-more wildcard at an edge faces one at the adjacent edge of the neighbour on that side, or the branch is solely a tree wildcard; the reported rule is a violated one
+fn ob_c06_branch_neighbours_core_left_separator(two: bool, ks: u8, ke: u8) {
+    branch_cases3(two, ks, ke, 5);
+}
+
+//@ob C06.branch.neighbours.core.left-zom
+//@ props: C06 C05
+//@ kind: complete
+//@ unwind: 5
+//@ fns: src/rule.rs::branch::check_branch src/rule.rs::branch::has_starting_zom src/rule.rs::branch::has_ending_zom
+//@ pre: quick-tier slice of C06.branch.neighbours.left-zom: symbolic leaf terminals; a `*` on the left; on the right nothing, a separator or a `*`
+//@ post: as C06.branch.neighbours.left-*
+fn ob_c06_branch_neighbours_core_left_zom(two: bool, ks: u8, ke: u8) {
+    branch_cases3(two, ks, ke, 2);
+}
+
 //@ob C06.alternation.rooted
 //@ props: C06 C12 C05
 //@ kind: complete
